@@ -1048,6 +1048,7 @@ class RouteMon(Monitor):
                     if isinstance(b, Batch) and b.id not in self.route:
                         self.route[b.id] = []
                         self.stack[b.id] = []
+        taken = set()        # devices that accepted a part earlier in THIS event (several hand-overs by one buffer release)
         for rec in gives:
             if rec is None or not rec[6] or rec[2] != -1:
                 continue
@@ -1143,7 +1144,7 @@ class RouteMon(Monitor):
             if self.idle_rule and _is_cycle_dev(fdev) and (len(chain) == 1 or eff is not giver or via_passthrough):
                 # candidates: single-slot devices that could take the part now, directly behind the giver or behind
                 # unblocked pass-through devices (a pass-through device ranks by the longest-idle device behind it)
-                cands = self.idle_candidates(w, eff, rec[9])
+                cands = [c for c in self.idle_candidates(w, eff, rec[9]) if c not in taken]
                 if final in self.pre_idle and len(cands) > 1 and final in cands:
                     best = min(self.pre_idle[c] for c in cands)
                     if self.pre_idle[final] != best:
@@ -1151,6 +1152,7 @@ class RouteMon(Monitor):
                                                         f'{self.pre_idle[final]}) although '
                                                         f'{[c for c in cands if self.pre_idle[c] == best]} idle since {best}')
                     w.facts.append('idle_choice')
+            taken.add(final)
             if giver in self.idle_since and actor._part is None and actor._output is None:
                 self.idle_since[giver] = now
         # refused top-level attempts: note for vacuity
